@@ -34,10 +34,11 @@ type Sorts struct {
 	strLits map[string]string // literal -> const name
 	strUsed bool
 	bytUsed bool
+	vms     map[string][2]string
 }
 
 func NewSorts(ctx *Ctx) *Sorts {
-	return &Sorts{ctx: ctx, structs: map[string]*structInfo{}, byType: map[string]string{}, slices: map[string]string{}, strLits: map[string]string{}}
+	return &Sorts{ctx: ctx, structs: map[string]*structInfo{}, byType: map[string]string{}, slices: map[string]string{}, strLits: map[string]string{}, vms: map[string][2]string{}}
 }
 
 func (s *Sorts) needStr() {
@@ -114,7 +115,44 @@ func isByteSlice(t types.Type) bool {
 }
 
 // SortOf maps a Go type to an SMT sort, declaring datatypes on demand.
+func isGmap(t types.Type) (*types.Named, bool) {
+	if a, ok := t.(*types.Alias); ok {
+		t = types.Unalias(a)
+	}
+	if n, ok := t.(*types.Named); ok && n.Obj().Name() == "gmap" && n.TypeArgs() != nil && n.TypeArgs().Len() == 2 {
+		return n, true
+	}
+	return nil, false
+}
+
+// VMSort declares the value-map datatype for key sort k and value sort v.
+func (s *Sorts) VMSort(k, v string) string {
+	name := "VM_" + mangle(k) + "__" + mangle(v)
+	if _, ok := s.vms[name]; !ok {
+		s.vms[name] = [2]string{k, v}
+		s.ctx.DeclareSortRaw(name, fmt.Sprintf("(declare-datatypes ((%s 0)) (((mk_%s (%s.dom (Array %s Bool)) (%s.val (Array %s %s))))))", name, name, name, k, name, k, v))
+	}
+	return name
+}
+
+func (s *Sorts) VMDom(t Term) Term {
+	kv := s.vms[t.Sort]
+	return Term{fmt.Sprintf("(%s.dom %s)", t.Sort, t.S), ArraySort(kv[0], SBool)}
+}
+
+func (s *Sorts) VMVal(t Term) Term {
+	kv := s.vms[t.Sort]
+	return Term{fmt.Sprintf("(%s.val %s)", t.Sort, t.S), ArraySort(kv[0], kv[1])}
+}
+
+func (s *Sorts) MkVM(srt string, dom, val Term) Term {
+	return Term{fmt.Sprintf("(mk_%s %s %s)", srt, dom.S, val.S), srt}
+}
+
 func (s *Sorts) SortOf(t types.Type) string {
+	if n, ok := isGmap(t); ok {
+		return s.VMSort(s.SortOf(n.TypeArgs().At(0)), s.SortOf(n.TypeArgs().At(1)))
+	}
 	switch u := t.Underlying().(type) {
 	case *types.Basic:
 		switch {
@@ -236,6 +274,9 @@ func (s *Sorts) Zero(srt string) Term {
 		return Term{"bytes_nil", SBytes}
 	case SReal:
 		return Term{"0.0", SReal}
+	}
+	if kv, ok := s.vms[srt]; ok {
+		return s.MkVM(srt, s.ConstArray(kv[0], SBool, False), s.ConstArray(kv[0], kv[1], s.Zero(kv[1])))
 	}
 	if strings.HasPrefix(srt, "Sl_") {
 		es := s.sliceElem(srt)
